@@ -27,7 +27,7 @@ def run(prop, tier, parts):
             merged["coverage"]["layers"] = {name: {"level": ev["level"], "coverage": cov}}
         else:
             mc = merged["coverage"]
-            for k in ("obligations", "discharged", "evaluations", "distinct_nontrivial", "states", "transitions",
+            for k in ("obligations", "discharged", "known_finding_obligation_instances", "evaluations", "distinct_nontrivial", "states", "transitions",
                       "traces_validated_against_impl"):
                 if k in cov:
                     mc[k] = mc.get(k, 0) + cov[k]
